@@ -72,6 +72,10 @@ SOFTWARE, EVEN IF ADVISED OF THE POSSIBILITY OF SUCH DAMAGE.
 #define MAX_ARGS_EXT_VAR     32
 #define MAX_ARGS_MODULE_DATA 32
 #define MAX_QUEUED_FILES     64
+#if defined(YARA_VERIF) && defined(YARA_VERIF_MAX_QUEUED_FILES)
+#undef MAX_QUEUED_FILES
+#define MAX_QUEUED_FILES YARA_VERIF_MAX_QUEUED_FILES
+#endif
 
 #define exit_with_code(code) \
   {                          \
